@@ -39,6 +39,9 @@ def attribute(v):
         props.add("C02")
     if any(i.endswith("RFunc") for i in invs):
         props.add("C07")
+    if any(i.split(":")[-1] in ("NoRecordingWhileResetting", "ResetRunsAllEntries", "EnterPushesOne", "ExitResetsTop",
+                               "RecordsIntoTop") for i in invs):
+        props.add("C03")
     if any(i.endswith("Exact") for i in invs):
         toks = v.get("inexact", [])
         if any(t.startswith(("col:", "row:", "obj:", "objective:")) for t in toks):
@@ -46,6 +49,8 @@ def attribute(v):
         if any(not t.startswith(("col:", "row:", "obj:", "objective:")) for t in toks) or not toks:
             props.add("C02")
     anything = bool(fields) or bool(invs)
+    if "crash" in fields:
+        return {"C13"} if a in ("Analyze", "Helper") else {"C01", "C02"}
     if a == "Exit" and anything:
         props.add("C03")
     if a == "Enter" and fields:
@@ -75,36 +80,42 @@ def tlc_walks(wd, rep, profile, nwalks, depth, sd, emit=True, bug="none", expect
     return C.run_tlc("CobraModel", cfgp, wd, timeout=3000, expect_violation=expect_violation)
 
 
-def _drive_chunk(args):
-    pal, items = args
-    out = []
-    for tid, beh in items:
-        d = ModelDriver(pal)
-        out.append(d.run(beh, tid))
-    return out
+def _drive_one(item, progress):
+    pal, tid, beh = item
+    d = ModelDriver(pal)
+    orig = d.apply
+
+    def traced(op, _n=[0]):
+        _n[0] += 1
+        progress(_n[0])
+        return orig(op)
+    d.apply = traced
+    return d.run(beh, tid)
 
 
-def drive_all(behs, palettes):
-    jobs, meta = [], {}
+def drive_all(behs, palettes, wd, tag):
+    """Every behaviour runs under the plain palette and under one other palette."""
+    items, meta = [], {}
     tid = 0
     for pi, pal in enumerate(palettes):
-        items = []
         for bi, beh in enumerate(behs):
-            if (bi + pi) % len(palettes) and len(palettes) > 1 and pi > 0:
-                # every behaviour runs under the plain palette and one other palette
-                if (bi % (len(palettes) - 1)) + 1 != pi:
-                    continue
+            if pi > 0 and len(palettes) > 2 and (bi % (len(palettes) - 1)) + 1 != pi:
+                continue
             tid += 1
-            items.append((tid, beh))
+            items.append((pal, tid, beh))
             meta[tid] = (pal["name"], bi)
-        for ch in C.chunks(items, max(10, len(items) // (C.NCPU * 3) + 1)):
-            jobs.append((pal, ch))
-    traces = []
-    with mp.get_context("fork").Pool(C.NCPU, maxtasksperchild=4) as pool:
-        for part in pool.imap_unordered(_drive_chunk, jobs):
-            traces.extend(part)
-    traces.sort(key=lambda t: t["tid"])
-    return traces, meta
+    results = C.isolated_map(_drive_one, items, C.NCPU, wd, "drv_" + tag)
+    traces, crashes = [], []
+    for (pal, tid, beh), r in zip(items, results):
+        if r is None:
+            raise C.Machinery("driver lost a behaviour")
+        if "crash" in r:
+            k = (r.get("progress") or 1) - 1
+            crashes.append({"tid": tid, "palette": pal["name"], "crash": r["crash"], "l": k + 1,
+                            "op": beh["ops"][min(k, len(beh["ops"]) - 1)]})
+        else:
+            traces.append(r)
+    return traces, meta, crashes
 
 
 def _validate_file(args):
@@ -158,8 +169,19 @@ def run(prop, tier, replay=None):
         behs = res["printed"]
         if len(behs) < nwalks * 0.9:
             raise C.Machinery("TLC emitted %d behaviours, expected about %d" % (len(behs), nwalks))
-        traces, meta = drive_all(behs, palettes)
+        if profile == PROFILE[prop][0]:
+            # pinned witnesses of the open findings of this property: replayed on every run
+            for f in rep.findings:
+                if f.get("status") == "open" and prop in f.get("witness_props", []) and f.get("witness_ops"):
+                    behs.append({"walk": 0, "witness": f["id"], "ops": f["witness_ops"]})
+        traces, meta, crashes = drive_all(behs, palettes, wd, profile)
         verdicts, distinct, cmd = validate(traces, wd, profile)
+        for c in crashes:
+            # native code aborted the interpreter (or hung) inside the call in flight: an outcome like any other
+            a = c["op"]["a"]
+            v = {"verdict": "CRASH", "tid": c["tid"], "l": c["l"], "action": a, "op": c["op"], "fields": ["crash"],
+                 "invs": [], "tags": [], "expraises": "none", "obsraises": "crash:" + c["crash"], "inexact": []}
+            verdicts.append(v)
         by_tid = {t["tid"]: t for t in traces}
         consumed = sum(len(t["events"]) + 1 for t in traces)
         if distinct > consumed or distinct < len(traces):
@@ -169,7 +191,7 @@ def run(prop, tier, replay=None):
             if prop not in props:
                 attributed_elsewhere += 1
                 continue
-            t = by_tid[v["tid"]]
+            t = by_tid.get(v["tid"], {"tid": v["tid"], "events": []})
             pal, bi = meta[v["tid"]]
             v2 = dict(v)
             v2["spec"] = "CobraModel"
